@@ -319,7 +319,10 @@ impl Expression for Op {
 
                 // Division by a literal normal float or integer cannot fail by itself; the
                 // lhs is still evaluated, so the operation is as fallible as the lhs.
-                match self.rhs.resolve_constant(&state) {
+                let rhs_value = self.rhs.resolve_constant(&state);
+                // The rhs is always evaluated as well: its effects belong to the type state.
+                let _rhs_def = self.rhs.apply_type_info(&mut state);
+                match rhs_value {
                     Some(value) if lhs_def.is_float() || lhs_def.is_integer() => match value {
                         Value::Float(v) if v.is_normal() => {
                             td.maybe_fallible(lhs_def.is_fallible())
